@@ -6,6 +6,8 @@ import (
 	"crypto/cipher"
 	"crypto/rand"
 	"errors"
+	"fmt"
+	"runtime"
 	"sync"
 	"time"
 
@@ -19,7 +21,7 @@ import (
 type KMSWorld struct {
 	// FailErr, when set, is what failing regions return instead of ErrKMSDown (e.g. an error that
 	// wraps context.DeadlineExceeded, as the AWS SDKs produce for per-call timeouts).
-	FailErr error
+	FailErr  error
 	mu       sync.Mutex
 	Regions  map[string]*KMSRegion
 	Calls    []KMSCall
@@ -179,12 +181,25 @@ func (k *KMSRegion) decrypt(ct []byte) ([]byte, error) {
 	return pt, nil
 }
 
+// ctxGone mirrors what the real clients do with a context that is already cancelled when the
+// request is about to be sent: the request fails with an error wrapping the context's error.
+func ctxGone(cx interface{ Err() error }) error {
+	runtime.Gosched() // requests are sent from goroutines: let whoever started them get on first
+	if err := cx.Err(); err != nil {
+		return fmt.Errorf("RequestCanceled: request context canceled: %w", err)
+	}
+	return nil
+}
+
 // ---- SDK v1 adapter ---------------------------------------------------------------
 
 // KMSV1 implements the aws-sdk-go (v1) client subset the plugin uses.
 type KMSV1 struct{ R *KMSRegion }
 
-func (c KMSV1) EncryptWithContext(_ awsv1.Context, in *kmsv1.EncryptInput, _ ...reqv1.Option) (*kmsv1.EncryptOutput, error) {
+func (c KMSV1) EncryptWithContext(cx awsv1.Context, in *kmsv1.EncryptInput, _ ...reqv1.Option) (*kmsv1.EncryptOutput, error) {
+	if err := ctxGone(cx); err != nil {
+		return nil, err
+	}
 	ct, err := c.R.encrypt(awsv1.StringValue(in.KeyId), in.Plaintext)
 	if err != nil {
 		return nil, err
@@ -192,7 +207,10 @@ func (c KMSV1) EncryptWithContext(_ awsv1.Context, in *kmsv1.EncryptInput, _ ...
 	return &kmsv1.EncryptOutput{CiphertextBlob: ct, KeyId: in.KeyId}, nil
 }
 
-func (c KMSV1) GenerateDataKeyWithContext(_ awsv1.Context, in *kmsv1.GenerateDataKeyInput, _ ...reqv1.Option) (*kmsv1.GenerateDataKeyOutput, error) {
+func (c KMSV1) GenerateDataKeyWithContext(cx awsv1.Context, in *kmsv1.GenerateDataKeyInput, _ ...reqv1.Option) (*kmsv1.GenerateDataKeyOutput, error) {
+	if err := ctxGone(cx); err != nil {
+		return nil, err
+	}
 	pt, ct, err := c.R.generate(awsv1.StringValue(in.KeyId))
 	if err != nil {
 		return nil, err
@@ -200,7 +218,10 @@ func (c KMSV1) GenerateDataKeyWithContext(_ awsv1.Context, in *kmsv1.GenerateDat
 	return &kmsv1.GenerateDataKeyOutput{Plaintext: pt, CiphertextBlob: ct, KeyId: awsv1.String(c.R.ARN)}, nil
 }
 
-func (c KMSV1) DecryptWithContext(_ awsv1.Context, in *kmsv1.DecryptInput, _ ...reqv1.Option) (*kmsv1.DecryptOutput, error) {
+func (c KMSV1) DecryptWithContext(cx awsv1.Context, in *kmsv1.DecryptInput, _ ...reqv1.Option) (*kmsv1.DecryptOutput, error) {
+	if err := ctxGone(cx); err != nil {
+		return nil, err
+	}
 	pt, err := c.R.decrypt(in.CiphertextBlob)
 	if err != nil {
 		return nil, err
@@ -213,7 +234,10 @@ func (c KMSV1) DecryptWithContext(_ awsv1.Context, in *kmsv1.DecryptInput, _ ...
 // KMSV2 implements the aws-sdk-go-v2 client subset the plugin uses.
 type KMSV2 struct{ R *KMSRegion }
 
-func (c KMSV2) Encrypt(_ context.Context, in *kmsv2.EncryptInput, _ ...func(*kmsv2.Options)) (*kmsv2.EncryptOutput, error) {
+func (c KMSV2) Encrypt(cx context.Context, in *kmsv2.EncryptInput, _ ...func(*kmsv2.Options)) (*kmsv2.EncryptOutput, error) {
+	if err := ctxGone(cx); err != nil {
+		return nil, err
+	}
 	id := ""
 	if in.KeyId != nil {
 		id = *in.KeyId
@@ -225,7 +249,10 @@ func (c KMSV2) Encrypt(_ context.Context, in *kmsv2.EncryptInput, _ ...func(*kms
 	return &kmsv2.EncryptOutput{CiphertextBlob: ct, KeyId: in.KeyId}, nil
 }
 
-func (c KMSV2) GenerateDataKey(_ context.Context, in *kmsv2.GenerateDataKeyInput, _ ...func(*kmsv2.Options)) (*kmsv2.GenerateDataKeyOutput, error) {
+func (c KMSV2) GenerateDataKey(cx context.Context, in *kmsv2.GenerateDataKeyInput, _ ...func(*kmsv2.Options)) (*kmsv2.GenerateDataKeyOutput, error) {
+	if err := ctxGone(cx); err != nil {
+		return nil, err
+	}
 	id := ""
 	if in.KeyId != nil {
 		id = *in.KeyId
@@ -238,7 +265,10 @@ func (c KMSV2) GenerateDataKey(_ context.Context, in *kmsv2.GenerateDataKeyInput
 	return &kmsv2.GenerateDataKeyOutput{Plaintext: pt, CiphertextBlob: ct, KeyId: &arn}, nil
 }
 
-func (c KMSV2) Decrypt(_ context.Context, in *kmsv2.DecryptInput, _ ...func(*kmsv2.Options)) (*kmsv2.DecryptOutput, error) {
+func (c KMSV2) Decrypt(cx context.Context, in *kmsv2.DecryptInput, _ ...func(*kmsv2.Options)) (*kmsv2.DecryptOutput, error) {
+	if err := ctxGone(cx); err != nil {
+		return nil, err
+	}
 	pt, err := c.R.decrypt(in.CiphertextBlob)
 	if err != nil {
 		return nil, err
